@@ -62,7 +62,7 @@ Theorem C04_cp_decide_sound :
     match cp_decide nl n with
     | CpKeep => True
     | CpConst c => r = c mod 2 ^ width_of nl (ndest n)
-    | CpWire w => r = v w
+    | CpWire w => r = v w /\ width_of nl w = 1 /\ width_of nl (ndest n) = 1 /\ In w (nargs n)
     | CpNot w => r = 1 - v w /\ width_of nl w = 1 /\ width_of nl (ndest n) = 1 /\ In w (nargs n)
     end.
 Proof. exact cp_decide_sound. Qed.
